@@ -35,11 +35,22 @@ def lapack_tasks(tier):
              'timeout_ms': t} for f in fns]
 
 
+BASE_FUNCS = ['base_axpy', 'base_gemv', 'base_gemm', 'base_syrk',
+              'base_symv']
+
+
+def base_tasks(tier):
+    t = 10000 if tier == 'quick' else 120000
+    return [{'cfile': 'base.c', 'fn': f, 'mode': 'spec',
+             'module': 'contracts.c.base_spec', 'timeout_ms': t}
+            for f in BASE_FUNCS]
+
+
 def tasks(tier):
     from engine.checks import c15, c20
     return c17.tasks(tier) + c15.tasks(tier, sorted(set(c15.FUNCS +
                                                         c20.FUNCS))) + \
-        lapack_tasks(tier)
+        lapack_tasks(tier) + base_tasks(tier)
 
 
 def run(report, tier, seed):
@@ -58,6 +69,7 @@ def run(report, tier, seed):
             extern_lapack.DEVIATIONS)
     report.unverified += [
         'sparse.c (all functions): outside the supported C subset',
-        'base.c generic products (base_gemv, base_gemm, base_syrk, '
-        'base_symv, base_axpy), misc_solvers.c, cholmod.c, umfpack.c, '
+        'base.c: the sparse branches of the generic products (sp_gemv, '
+        'sp_gemm, sp_syrk, sp_symv, sp_axpy kernels of sparse.c) are '
+        'abandoned paths; misc_solvers.c, cholmod.c, umfpack.c, '
         'amd.c, glpk.c, gsl.c, fftw.c, dsdp.c: not under contract']
